@@ -158,6 +158,10 @@ void h_mpx(void) {
     V_COVER(r > 0 && in.err0 == 0 && state0 == 0 && zck->error_state > 0 && g_nwrites == 0); /* neither pattern matches */
     V_COVER(r > 0 && in.err0 == 0 && state0 == 0 && zck->error_state == 0 && mp->state == 0 && mp->buffer == NULL && g_nwrites == 0); /* terminator matched */
 #endif
+#ifdef MPX_GEN
+    V_COVER(r == 0 && in.err0 == 0 && dl->dl_regex == NULL && dl->end_regex == NULL && g_nwrites == 0);   /* the patterns could not be made: refused, nothing left behind */
+    V_COVER(r > 0 && dl->dl_regex != NULL && dl->end_regex != NULL);                                        /* patterns made by this call */
+#endif
 #if MPX_T > 4 && MPX_M > 0
     V_COVER(r > 0 && state0 != 0 && length0 < MPX_M && g_nwrites == 2);                /* payload ends inside the carried bytes, next part header parsed from carried + new bytes */
 #endif
